@@ -127,11 +127,23 @@ def streams(seed, tier):
         for n in [MIN, -2, -1, 0, 1, 2, 5]:
             for nm in ("BOOLVECTOR.ONES", "BOOLVECTOR.ZEROS", "INTVECTOR.ONES", "INTVECTOR.ZEROS", "FLOATVECTOR.ONES", "FLOATVECTOR.ZEROS"):
                 cases.append(one(prof, nm, int=[n, 3]))
+        # sizes beyond every configured limit (growth cap 500, point limits 100 / 25) and under unusual limits
+        for n in [99, 100, 101, 499, 500, 501, 1000, 1025]:
+            for nm in ("BOOLVECTOR.ONES", "BOOLVECTOR.ZEROS", "INTVECTOR.ONES", "INTVECTOR.ZEROS", "FLOATVECTOR.ONES", "FLOATVECTOR.ZEROS"):
+                cases.append(one(prof, nm, int=[n, 3]))
+        for n, cap in [(8, 5), (8, 0), (3, 1), (30, 25)]:
+            for nm in ("BOOLVECTOR.ONES", "INTVECTOR.ZEROS", "FLOATVECTOR.ONES"):
+                c = list(DEFAULT_CFG); c[6] = cap; c[8] = min(c[8], cap); c[9] = min(c[9], max(cap, 1))
+                cases.append(one(prof, nm, int=[n, 3], cfg=c))
         for n in [MIN, -3, -1, 0, 1, 2, 6]:
             for (a, x, phi) in [(1.0, 0.25, 0.0), (2.0, 0.125, 0.5), (0.0, 1.0, 1.0)]:
                 cases.append(one(prof, "FLOATVECTOR.SINE", float=[fbits(a), fbits(x), fbits(phi)], int=[n]))
         cases.append(one(prof, "FLOATVECTOR.SINE", float=[fbits(1.0), fbits(1.0)], int=[2], _bare=True))
         ivs = [[], [0], [MAX, 1], [MAX, MAX, MAX], [MIN, -1], [MIN, MIN], [MAX, MIN, 5], [1, 3, -2, 5, 7], [3, 3, 3], [2, 1, 2, 1], [MAX] * 5 + [MIN] * 5]
+        # sums beyond 2^24 (not representable in f32), lengths that are not powers of two; beyond 2^31 and 2^53
+        ivs += [[16777217] * 3, [16777217, 16777217, 16777219], [MAX] * 3, [MAX] * 7, [MIN] * 3, [33554433, 1, 1], [16777216, 1], [16777217, 2, 0],
+                [MAX, MAX, MAX, MAX, MAX, MAX - 1], [123456789, 987654321, 5], [-16777217] * 5]
+        ivs += [[rand_i32(rng) for _ in range(rng.choice([3, 5, 6, 7, 9, 11]))] for _ in range(40)]
         for v in ivs:
             for nm in ("INTVECTOR.SUM", "INTVECTOR.MEAN", "INTVECTOR.LENGTH", "INTVECTOR.SORT*ASC", "INTVECTOR.SORT*DESC"):
                 cases.append(one(prof, nm, ivec=[v]))
